@@ -717,14 +717,16 @@ def simplify_if_control_flow(source: str) -> str:
             continue
 
         if additions and replacements:
-            source = processing.alter_code(
+            new_source = processing.alter_code(
                 source,
                 root,
                 replacements=replacements,
                 additions=additions,
                 priority=("additions", "replacements"),
             )
+            if new_source == source:  # It is left as it is if there is an ignore comment
+                continue
 
-            return simplify_if_control_flow(source)
+            return simplify_if_control_flow(new_source)
 
     return source
